@@ -4,7 +4,7 @@
    field lies within its bit width / enumeration; enc_X / dec_X are built from the
    layout tables (Model/Wire.v) by the generic big-endian packer (Base/Bits.v). *)
 From FlexVerif Require Import Base.Prelude Base.Bits Base.BitsFacts Model.Lifetime Model.Wire Proofs.WireProofs
-  Model.WireCodePoints Gen.C02Consts Proofs.WireCodePointsProofs Gen.SrcGeonet Proofs.SrcWireEquiv.
+  Model.WireCodePoints Gen.C02Consts Proofs.WireCodePointsProofs Gen.SrcGeonet Proofs.SrcWireEquiv Proofs.SrcWireDecEquiv.
 
 (* -- the generic codec: for ANY layout table whose widths add up to whole octets -- *)
 Theorem C02_generic_decode_encode : forall ws vs rest,
@@ -364,6 +364,16 @@ Theorem C02_source_ls_request_decoder_is_the_model : forall header, wf_bytes hea
   LSReq_decode header = option_map lsreq_tuple (dec_lsreq header).
 Proof. exact src_lsreq_decode. Qed.
 Print Assumptions C02_source_ls_request_decoder_is_the_model.
+
+Theorem C02_source_gbc_decoder_is_the_model : forall header, wf_bytes header = true ->
+  GBC_decode header = option_map gbc_tuple (dec_gbc header).
+Proof. exact src_gbc_decode. Qed.
+Print Assumptions C02_source_gbc_decoder_is_the_model.
+
+Theorem C02_source_btp_decoders_are_the_model : forall bs, wf_bytes bs = true -> (4 <= length bs)%nat ->
+  dec_btp bs = Some [fst (BTPA_decode bs); snd (BTPA_decode bs)] /\ BTPB_decode bs = BTPA_decode bs.
+Proof. exact src_btp_decode. Qed.
+Print Assumptions C02_source_btp_decoders_are_the_model.
 
 Example C02_source_example :
   LPV_encode 0 5 [0; 0; 0; 0; 43; 103] 123456 (-338688000) (-1512093000) 1 (-300) 3599
